@@ -1026,6 +1026,8 @@ func genC16watcher(r *Rand, p *Plan, tier string) {
 				st.NoEvent = true
 			case 5:
 				st.OldMtime = true
+			case 6, 7:
+				st.Replace = true
 			}
 		}
 		p.Scen.RawDocs = append(p.Scen.RawDocs, text)
@@ -1082,6 +1084,10 @@ func genC16(r *Rand, p *Plan, tier string) {
 			// a file put in place with an old timestamp (restored backup)
 			st.Via = "load"
 			st.OldMtime = true
+		case 7, 8:
+			// written aside and renamed over the configured file
+			st.Via = "load"
+			st.Replace = true
 		}
 		p.Scen.RawDocs = append(p.Scen.RawDocs, text)
 		ls.Steps = append(ls.Steps, st)
